@@ -28,7 +28,7 @@ def correspond(ctx):
     o_rt = Oracle(ctx, "all-hashers-roundtrip")
     for name in fc.MODELLED:
         h = fc.handler(name)
-        for hs in fc.gen_hashes(name, rng, 8 if not ctx.thorough else 60, vary_secret=True):
+        for hs in fc.gen_hashes(name, rng, (3 if name in fc.EXPENSIVE else 8) if not ctx.thorough else 60, vary_secret=True):
             for v in fc.variants(h, name, hs, rng):
                 s_fmt.add(f"fmt parse {name} {fc.cps(v)}", lambda v=v: fc.parse_dump(name, v), name + ":parse")
                 s_fmt.add(f"fmt reparse {name} {fc.cps(v)}", lambda v=v: fc.reparse(name, v), name + ":render")
@@ -49,7 +49,7 @@ def correspond(ctx):
         if "realm" in h.context_kwds:
             kw["realm"] = "realm"
         try:
-            hashes = [fc.cheap(h).hash("pw", **kw)] + ([] if kw else fc.gen_hashes(name, rng, 3))
+            hashes = [fc.cheap(h).hash("pw", **kw)] + ([] if kw else fc.gen_hashes(name, rng, (1 if name in fc.EXPENSIVE else 3) if not ctx.thorough else 6))
         except Exception as e:  # noqa: BLE001
             skipped.append(f"{name} ({errname(e)})")
             continue
